@@ -171,45 +171,134 @@ fn run_read(bytes: Vec<u8>, k: Option<u64>) -> (String, u64) {
     (r.unwrap_or_else(|_| "panic".into()), calls.get())
 }
 
-fn run_write(calls: &[String], k: Option<u64>) -> (String, u64, Option<Vec<u8>>, bool) {
+fn run_write(calls: &[String], srcs: &[Vec<u8>], k: Option<u64>) -> (String, u64, Option<Vec<u8>>, bool) {
     let first: Vec<&str> = calls[0].split(',').collect();
     let base = if first[0] == "ap" { unhex(first[1]).unwrap_or_default() } else { vec![] };
     let io = FaultIo::new(base, k);
     let cnt = io.calls.clone();
-    let ro = run_calls_sink(calls, &[], io);
+    let ro = run_calls_sink(calls, srcs, io);
     let mut s = ro.tokens.join(" ");
     if let Some(f) = &ro.fin { s += " "; s += &show_final(f); }
-    let all_ok = ro.tokens.iter().all(|t| t == "ok" || t.starts_with("ok="));
+    // `src:…` is the refusal of the SOURCE archive's `by_index_raw` (index out of range), not an answer of the writer
+    let all_ok = ro.tokens.iter().all(|t| t == "ok" || t.starts_with("ok=") || t.starts_with("src:"));
     (s, cnt.get(), ro.fin, all_ok)
+}
+
+fn srcs_of(a: &std::collections::BTreeMap<String, String>) -> Vec<Vec<u8>> {
+    (0..8).filter_map(|i| get_hex(a, &format!("src{i}"))).collect()
 }
 
 fn stored_opts(r: &mut Rng) -> String {
     format!("0,n,{},{},{},{},n", 0x21 + (r.below(100) as u16) * 512, r.below(0xbf00), if r.chance(1, 2) { r.below(512).to_string() } else { "n".into() }, r.chance(1, 6) as u8)
 }
 
-fn write_scenario(r: &mut Rng, base: Option<&Vec<u8>>) -> Vec<String> {
-    let mut calls = vec![match base { Some(b) => format!("ap,{}", hex(b)), None => "new".into() }];
-    for _ in 0..r.range(1, 4) {
-        match r.below(8) {
-            0..=3 => {
-                calls.push(format!("sf,{},{}", hex(&super::read::rand_name(r)).replace("00", "5f"), stored_opts(r)));
-                for _ in 0..r.below(3) { let n = r.below(40) as usize; calls.push(format!("w,{}", hex(&r.bytes(n)))); }
-            }
-            4 => calls.push(format!("dir,{},{}", hex(b"d/"), stored_opts(r))),
-            5 => calls.push(format!("sym,{},{},{}", hex(b"lnk"), hex(b"t/p"), stored_opts(r))),
-            6 => calls.push(format!("c,{}", hex(b"cmt"))),
-            _ => {
-                calls.push(format!("sx,{},{}", hex(b"x"), stored_opts(r)));
-                calls.push(format!("w,{}", hex(&[0xfe, 0xca, 2, 0, 1, 2])));
-                if r.chance(1, 2) { calls.push("el".into()); calls.push(format!("w,{}", hex(&[0xef, 0xbe, 1, 0, 9]))); }
-                calls.push("ex".into());
-                calls.push(format!("w,{}", hex(b"data")));
-            }
+/// One item of a plain (stored) call sequence.  Families: 0..=3 ordinary entry, 4 directory, 5 symlink, 6 comment,
+/// 7 extra-data mode (local, optionally central-only part), 8 aligned entry.
+fn family_calls(r: &mut Rng, fam: u64, calls: &mut Vec<String>) {
+    match fam {
+        0..=3 => {
+            // names as the caller passes them (`&str`: valid UTF-8, also non-ASCII ones); no NUL
+            let name: Vec<u8> = super::write::rand_utf8_name(r).into_iter().map(|b| if b == 0 { b'_' } else { b }).collect();
+            calls.push(format!("sf,{},{}", hex(&name), stored_opts(r)));
+            for _ in 0..r.below(3) { let n = r.below(40) as usize; calls.push(format!("w,{}", hex(&r.bytes(n)))); }
         }
+        4 => calls.push(format!("dir,{},{}", hex(b"d/"), stored_opts(r))),
+        5 => calls.push(format!("sym,{},{},{}", hex(b"lnk"), hex(b"t/p"), stored_opts(r))),
+        6 => calls.push(format!("c,{}", hex(b"cmt"))),
+        7 => {
+            calls.push(format!("sx,{},{}", hex(b"x"), stored_opts(r)));
+            calls.push(format!("w,{}", hex(&[0xfe, 0xca, 2, 0, 1, 2])));
+            if r.chance(1, 2) { calls.push("el".into()); calls.push(format!("w,{}", hex(&[0xef, 0xbe, 1, 0, 9]))); }
+            calls.push("ex".into());
+            calls.push(format!("w,{}", hex(b"data")));
+        }
+        _ => {
+            // `start_file_aligned`: the padding record is written and the header back-patched through the sink
+            let al = *r.pick(&[0u32, 1, 2, 4, 16, 64, 512, 3, 7, 4096]);
+            calls.push(format!("sa,{},{},{al}", hex(b"al"), stored_opts(r)));
+            if r.chance(3, 4) { let n = r.below(40) as usize; calls.push(format!("w,{}", hex(&r.bytes(n)))); }
+        }
+    }
+}
+
+const NFAM: u64 = 9;
+
+/// A stored call sequence of 1..4 items ending in finish / drop / finish twice; `force` puts one item of that
+/// family at a random place (so that every family is emitted in every run, whatever the seed).
+fn write_scenario(r: &mut Rng, base: Option<&Vec<u8>>, force: Option<u64>) -> Vec<String> {
+    let mut calls = vec![match base { Some(b) => format!("ap,{}", hex(b)), None => "new".into() }];
+    let n = r.range(1, 4);
+    let at = r.below(n);
+    for j in 0..n {
+        let fam = match force { Some(f) if j == at => f, _ => r.below(NFAM) };
+        family_calls(r, fam, &mut calls);
     }
     calls.push(if r.chance(3, 4) { "fin".into() } else { "drop".into() });
     if r.chance(1, 3) && calls.last().unwrap() == "fin" { calls.push("fin".into()); }
     calls
+}
+
+/// A small source archive for raw copies: from the writer (stored / deflated) or, with data descriptors, from the
+/// independent builder.  `whole`: the source reader (`write::ShortSrc`, chunk size a function of the bytes) delivers
+/// every entry in one read, so the copy loop issues ONE sink write per entry as the model says; otherwise it
+/// delivers 1 / 7 byte pieces (one sink write each: judged by the oracle alone).
+fn rc_source(r: &mut Rng, whole: bool) -> Vec<u8> {
+    for _ in 0..64 {
+        let b = if r.chance(2, 3) {
+            let mut w = zip::ZipWriter::new(Cursor::new(vec![]));
+            for j in 0..r.range(1, 3) {
+                let o = zip::write::FileOptions::default().compression_method(*r.pick(&[zip::CompressionMethod::Stored, zip::CompressionMethod::Deflated]))
+                    .unix_permissions(0o640).large_file(r.chance(1, 8));
+                let _ = w.start_file(format!("s{j}"), o);
+                let n = r.below(120) as usize;
+                let _ = w.write_all(&r.bytes(n));
+            }
+            w.finish().map(|c| c.into_inner()).unwrap_or_default()
+        } else {
+            let (mut l, _) = super::read::rand_layout(r);
+            for e in l.entries.iter_mut() { e.method = 0; e.data.truncate(64); e.usize_ = e.data.len() as u64; e.crc = crc32fast::hash(&e.data); e.flags &= !1; }
+            l.entries.truncate(3);
+            l.prefix.truncate(16);
+            l.trailing.clear();
+            crate::mkzip::build(&l).bytes
+        };
+        let chunk = super::write::ShortSrc::new(b.clone()).chunk();
+        if whole == (chunk >= 4000) { return b; }
+    }
+    // 64 rejections in a row (probability 2^-26 at best): an empty archive, nothing to copy
+    zip::ZipWriter::new(Cursor::new(vec![])).finish().map(|c| c.into_inner()).unwrap_or_default()
+}
+
+/// Raw copies INTO the faulting sink, between ordinary entries; entry indices run one past the source's last
+/// entry (the refused handle is the call's outcome).
+fn rc_scenario(r: &mut Rng, nsrc_entries: usize) -> Vec<String> {
+    let mut calls = vec!["new".to_string()];
+    if r.chance(1, 2) { family_calls(r, 0, &mut calls); }
+    for _ in 0..r.range(1, 3) {
+        let nm = if r.chance(1, 2) { "same".to_string() } else { hex(b"renamed") };
+        calls.push(format!("rc,0,{},{nm}", r.below(nsrc_entries as u64 + 1)));
+        if r.chance(1, 4) { calls.push(format!("w,{}", hex(b"stray"))); }
+    }
+    if r.chance(1, 2) { let f = r.below(NFAM); family_calls(r, f, &mut calls); }
+    calls.push(if r.chance(3, 4) { "fin".into() } else { "drop".into() });
+    if r.chance(1, 3) && calls.last().unwrap() == "fin" { calls.push("fin".into()); }
+    calls
+}
+
+/// `dist` counters per scenario family: op lines whose call list contains the family.
+fn count_families(g: &mut GenOut, calls: &[String], lines: u64) {
+    let mut seen: Vec<&str> = vec![];
+    for (j, c) in calls.iter().enumerate() {
+        let t = c.split(',').next().unwrap_or("");
+        let fam = match t {
+            "ap" => "append-base", "sf" => "file", "dir" => "dir", "sym" => "symlink", "c" => "comment", "sx" => "extra-data",
+            "el" => "extra-central", "sa" => "aligned", "rc" => "rawcopy", "drop" => "drop",
+            "fin" if j > 0 && calls[j - 1] == "fin" => "fin-twice",
+            _ => continue,
+        };
+        if !seen.contains(&fam) { seen.push(fam); }
+    }
+    for fam in seen { *g.dist.entry(format!("fam.{fam}")).or_insert(0) += lines; }
 }
 
 /// call sequences through the compressing encoders and the ZipCrypto layer (small contents: each encoder hands
@@ -313,79 +402,107 @@ impl Stream for Fault {
 
     fn gen(&self, seed: u64, tier: &str) -> GenOut {
         let mut g = GenOut::default();
-        g.rule = "scenarios: (read) open + read every entry of small stored archives from the independent builder (prefix, ZIP64 end records, descriptors, comments) and the writer; (write) stored call sequences incl. directories, symlinks, extra data, comments, finish/drop, second finish, and append onto bases; for each scenario the fault-free run and then a hard error injected at EVERY I/O call index k (exhaustive per scenario). non-trivial = a fault run (k given)".into();
-        let nscen = if tier == "thorough" { 2000 } else { 64 };
+        g.rule = "scenarios: (read) open + read every entry of small stored archives from the independent builder (prefix, ZIP64 end records, descriptors, comments) and the writer; (write) stored call sequences incl. directories, symlinks, extra data (local and central-only), comments, aligned entries, raw copies into the faulting sink, finish/drop, second finish, and append onto bases (writer-made and from the independent builder) - one `fam.<family>` counter each; compressing / ZipCrypto entries with the codec tables; for each scenario the fault-free run and then a hard error injected at EVERY I/O call index k (exhaustive per scenario). non-trivial = a fault run (k given)".into();
+        let nscen = if tier == "thorough" { 2000 } else { 80 };
+        // a writer-made archive: a plain call sequence, finished
+        let finished = |r: &mut Rng| -> Vec<u8> {
+            let calls = write_scenario(r, None, None);
+            let mut c2 = calls.clone(); if c2.last().unwrap() != "fin" { let n = c2.len() - 1; c2[n] = "fin".into(); }
+            super::write::run_calls(&c2, &[]).fin.unwrap_or_default()
+        };
+        let small_builder = |r: &mut Rng| -> Vec<u8> {
+            let (mut l, _) = super::read::rand_layout(r);
+            for e in l.entries.iter_mut() { e.method = 0; e.data.truncate(64); e.usize_ = e.data.len() as u64; e.crc = crc32fast::hash(&e.data); e.flags &= !1; }
+            l.entries.truncate(3);
+            l.prefix.truncate(16);
+            l.trailing.clear();
+            crate::mkzip::build(&l).bytes
+        };
+        // one write scenario: the fault-free line, then one line per I/O call index
+        let push_write = |g: &mut GenOut, kind: &str, op: &str, calls: &[String], srcs: &[Vec<u8>], tables: &str| {
+            let (_, n, _, _) = run_write(calls, srcs, None);
+            let mut tail = tables.to_string();
+            for (j, s) in srcs.iter().enumerate() { tail += &format!(" src{j}={}", hex(s)); }
+            g.push(&format!("{kind}.free"), format!("{op} calls={}{tail} k=none", calls.join(";")));
+            for k in 0..n { g.push(&format!("{kind}.k"), format!("{op} calls={}{tail} k={k}", calls.join(";"))); }
+            count_families(g, calls, n + 1);
+        };
         for i in 0..nscen {
             let mut r = super::rng_for(seed, "fault", i);
-            if i % 2 == 0 {
-                // read scenario
-                let bytes = if r.chance(1, 2) {
-                    let (mut l, _) = super::read::rand_layout(&mut r);
-                    for e in l.entries.iter_mut() { e.method = 0; e.data.truncate(64); e.usize_ = e.data.len() as u64; e.crc = crc32fast::hash(&e.data); e.flags &= !1; }
-                    l.entries.truncate(3);
-                    l.prefix.truncate(16);
-                    l.trailing.clear();
-                    crate::mkzip::build(&l).bytes
-                } else {
-                    let calls = write_scenario(&mut r, None);
-                    let mut c2 = calls.clone(); if c2.last().unwrap() != "fin" { let n = c2.len() - 1; c2[n] = "fin".into(); }
-                    super::write::run_calls(&c2, &[]).fin.unwrap_or_default()
-                };
-                let (_, n) = run_read(bytes.clone(), None);
-                g.push("read.free", format!("fault.read bytes={} k=none", hex(&bytes)));
-                for k in 0..n { g.push("read.k", format!("fault.read bytes={} k={k}", hex(&bytes))); }
-            } else if i % 8 == 1 {
-                // streaming reader, partial consumption, drain on drop (oracle only)
-                let calls = write_scenario(&mut r, None);
-                let mut c2 = calls.clone(); if c2.last().unwrap() != "fin" { let n = c2.len() - 1; c2[n] = "fin".into(); }
-                let bytes = super::write::run_calls(&c2, &[]).fin.unwrap_or_default();
-                let consume = *r.pick(&[0usize, 1, 7, 1000]);
-                let (_, n, _) = run_streaming(bytes.clone(), consume, None);
-                g.push("stream.free", format!("fault.stream bytes={} consume={consume} k=none", hex(&bytes)));
-                for k in 0..n { g.push("stream.k", format!("fault.stream bytes={} consume={consume} k={k}", hex(&bytes))); }
-            } else if i % 8 == 7 {
-                // raw copy with the fault on the source reader (oracle only)
-                let src = {
-                    let mut w = zip::ZipWriter::new(Cursor::new(vec![]));
-                    for j in 0..r.range(1, 3) {
-                        let o = zip::write::FileOptions::default().compression_method(*r.pick(&[zip::CompressionMethod::Stored, zip::CompressionMethod::Deflated]));
-                        let _ = w.start_file(format!("s{j}"), o);
-                        let n = r.range(20, 400) as usize;
-                        let _ = w.write_all(&r.bytes(n));
-                    }
-                    w.finish().map(|c| c.into_inner()).unwrap_or_default()
-                };
-                let chunk = *r.pick(&[1usize, 7, 64, 100000]);
-                let (_, n, _) = run_rawcopy(src.clone(), chunk, None);
-                g.push("rawcopy.free", format!("fault.rawcopy src={} chunk={chunk} k=none", hex(&src)));
-                for k in 0..n { g.push("rawcopy.k", format!("fault.rawcopy src={} chunk={chunk} k={k}", hex(&src))); }
-            } else if i % 4 == 3 {
-                // encrypted / compressed read scenario, small caller buffers, retry after an error (oracle only)
-                let (bytes, pw) = enc_archive(&mut r);
-                let bufsz = *r.pick(&[1usize, 8, 64, 1 << 16]);
-                let (_, n, _) = run_enc(bytes.clone(), &pw, bufsz, None);
-                let pwh = if pw.is_empty() { "-".to_string() } else { hex(&pw) };
-                g.push("enc.free", format!("fault.enc bytes={} pw={pwh} buf={bufsz} k=none", hex(&bytes)));
-                for k in 0..n { g.push("enc.k", format!("fault.enc bytes={} pw={pwh} buf={bufsz} k={k}", hex(&bytes))); }
-            } else {
-                let base = if r.chance(1, 4) {
-                    let c = write_scenario(&mut r, None);
-                    let mut c2 = c.clone(); if c2.last().unwrap() != "fin" { let n = c2.len() - 1; c2[n] = "fin".into(); }
-                    super::write::run_calls(&c2, &[]).fin
-                } else { None };
-                let codec = i % 8 == 5;
-                let calls = if codec { codec_scenario(&mut r) } else { write_scenario(&mut r, base.as_ref()) };
-                let (_, n, _, _) = run_write(&calls, None);
-                // codec scenarios carry the codec tables (as `make_line` of the write stream builds them): the model
-                // describes the encoder destructor's retry on the error path (`Model.emitFinish`, M2), so outcomes,
-                // sink bytes and call counts are compared exactly for every fault index
-                let tables = if codec {
+            // every scenario class has its own residues mod 16 (NB: each arm must be reachable - a class that is
+            // never emitted shows as a missing `gen.<class>` / `fam.<family>` counter in the evidence)
+            match i % 16 {
+                1 | 9 => {
+                    // streaming reader, partial consumption, drain on drop (oracle only)
+                    let bytes = finished(&mut r);
+                    let consume = *r.pick(&[0usize, 1, 7, 1000]);
+                    let (_, n, _) = run_streaming(bytes.clone(), consume, None);
+                    g.push("stream.free", format!("fault.stream bytes={} consume={consume} k=none", hex(&bytes)));
+                    for k in 0..n { g.push("stream.k", format!("fault.stream bytes={} consume={consume} k={k}", hex(&bytes))); }
+                }
+                3 | 11 => {
+                    // encrypted / compressed read scenario, small caller buffers, retry after an error (oracle only)
+                    let (bytes, pw) = enc_archive(&mut r);
+                    let bufsz = *r.pick(&[1usize, 8, 64, 1 << 16]);
+                    let (_, n, _) = run_enc(bytes.clone(), &pw, bufsz, None);
+                    let pwh = if pw.is_empty() { "-".to_string() } else { hex(&pw) };
+                    g.push("enc.free", format!("fault.enc bytes={} pw={pwh} buf={bufsz} k=none", hex(&bytes)));
+                    for k in 0..n { g.push("enc.k", format!("fault.enc bytes={} pw={pwh} buf={bufsz} k={k}", hex(&bytes))); }
+                }
+                5 => {
+                    // codec scenarios carry the codec tables (as `make_line` of the write stream builds them): the model
+                    // describes the encoder destructor's retry on the error path (`Model.emitFinish`, M2), so outcomes,
+                    // sink bytes and call counts are compared exactly for every fault index
+                    let calls = codec_scenario(&mut r);
                     let ro = super::write::run_calls(&calls, &[]);
-                    format!(" comp={} zc={}", if ro.comp.is_empty() { "-".into() } else { ro.comp.join(";") }, if ro.zc.is_empty() { "-".into() } else { ro.zc.join(";") })
-                } else { String::new() };
-                let kind = if codec { "writec" } else { "write" };
-                g.push(&format!("{kind}.free"), format!("fault.write calls={}{tables} k=none", calls.join(";")));
-                for k in 0..n { g.push(&format!("{kind}.k"), format!("fault.write calls={}{tables} k={k}", calls.join(";"))); }
+                    let tables = format!(" comp={} zc={}", if ro.comp.is_empty() { "-".into() } else { ro.comp.join(";") }, if ro.zc.is_empty() { "-".into() } else { ro.zc.join(";") });
+                    push_write(&mut g, "writec", "fault.write", &calls, &[], &tables);
+                }
+                7 => {
+                    // raw copy with the fault on the source reader (oracle only)
+                    let src = {
+                        let mut w = zip::ZipWriter::new(Cursor::new(vec![]));
+                        for j in 0..r.range(1, 3) {
+                            let o = zip::write::FileOptions::default().compression_method(*r.pick(&[zip::CompressionMethod::Stored, zip::CompressionMethod::Deflated]));
+                            let _ = w.start_file(format!("s{j}"), o);
+                            let n = r.range(20, 400) as usize;
+                            let _ = w.write_all(&r.bytes(n));
+                        }
+                        w.finish().map(|c| c.into_inner()).unwrap_or_default()
+                    };
+                    let chunk = *r.pick(&[1usize, 7, 64, 100000]);
+                    let (_, n, _) = run_rawcopy(src.clone(), chunk, None);
+                    g.push("rawcopy.free", format!("fault.rawcopy src={} chunk={chunk} k=none", hex(&src)));
+                    for k in 0..n { g.push("rawcopy.k", format!("fault.rawcopy src={} chunk={chunk} k={k}", hex(&src))); }
+                }
+                13 => {
+                    // raw copies INTO the faulting sink: compared with the model when the source reader delivers each
+                    // entry whole (one sink write per entry), oracle-only behind a 1 / 7-byte source reader
+                    let whole = (i / 16) % 3 != 2;
+                    let src = rc_source(&mut r, whole);
+                    let nent = zip::ZipArchive::new(Cursor::new(src.clone())).map(|a| a.len()).unwrap_or(0);
+                    let calls = rc_scenario(&mut r, nent);
+                    if whole { push_write(&mut g, "write-rc", "fault.write", &calls, &[src], ""); }
+                    else { push_write(&mut g, "writeo-rc", "fault.writeo", &calls, &[src], ""); }
+                }
+                6 | 14 | 15 => {
+                    // plain (stored) call sequences: 6 = fresh sink, 14 = appended onto a base (writer-made or from the
+                    // independent builder), 15 = either; in 6 and 14 one item of a family that rotates with the scenario
+                    // index is forced, so directories, symlinks, comments, extra-data mode and aligned entries are each
+                    // emitted in every run of at least 80 scenarios
+                    let with_base = i % 16 == 14 || (i % 16 == 15 && r.chance(1, 4));
+                    let base = if with_base { Some(if r.chance(2, 3) { finished(&mut r) } else { small_builder(&mut r) }) } else { None };
+                    let force = if i % 16 == 15 { None } else { Some(4 + (i / 16) % (NFAM - 4)) };
+                    let calls = write_scenario(&mut r, base.as_ref(), force);
+                    push_write(&mut g, "write", "fault.write", &calls, &[], "");
+                }
+                _ => {
+                    // read scenario
+                    let bytes = if r.chance(1, 2) { small_builder(&mut r) } else { finished(&mut r) };
+                    let (_, n) = run_read(bytes.clone(), None);
+                    g.push("read.free", format!("fault.read bytes={} k=none", hex(&bytes)));
+                    for k in 0..n { g.push("read.k", format!("fault.read bytes={} k={k}", hex(&bytes))); }
+                }
             }
         }
         g
@@ -399,11 +516,11 @@ impl Stream for Fault {
                 let (s, n) = run_read(get_hex(&a, "bytes").unwrap_or_default(), k);
                 format!("{s} ncalls={n}")
             }
-            "fault.enc" | "fault.writec" | "fault.rawcopy" | "fault.stream" => "oracle-only".into(),
+            "fault.enc" | "fault.writec" | "fault.writeo" | "fault.rawcopy" | "fault.stream" => "oracle-only".into(),
             "fault.write" => {
                 let calls: Vec<String> = a.get("calls").map(|c| c.split(';').map(|s| s.to_string()).collect()).unwrap_or_default();
                 if calls.is_empty() { return "bad-op".into(); }
-                let (s, n, _, _) = run_write(&calls, k);
+                let (s, n, _, _) = run_write(&calls, &srcs_of(&a), k);
                 format!("{s} ncalls={n}")
             }
             _ => "bad-op".into(),
@@ -467,15 +584,16 @@ impl Stream for Fault {
                 let r = resp.rsplit_once(" ncalls=").map(|x| x.0).unwrap_or(resp);
                 if all_ok && r != free { f.push(OracleFailure { what: format!("reader: every call succeeded under the fault but the result differs from the fault-free run: `{r}` vs `{free}`") }); }
             }
-            "fault.write" | "fault.writec" => {
+            "fault.write" | "fault.writec" | "fault.writeo" => {
                 let calls: Vec<String> = a.get("calls").map(|c| c.split(';').map(|s| s.to_string()).collect()).unwrap_or_default();
-                let (resp_w, _, fin_k, all_ok) = run_write(&calls, k);
+                let srcs = srcs_of(&a);
+                let (resp_w, _, fin_k, all_ok) = run_write(&calls, &srcs, k);
                 if resp_w.contains("panic") { f.push(OracleFailure { what: format!("panic under an injected I/O fault: {}", &resp_w[..resp_w.len().min(200)]) }); return f; }
                 // `drop` returns no Result (the crate documents that dropping "may silently fail"): a run counts
                 // as a success only if it contains an explicit finish()
                 let has_fin = calls.iter().any(|c| c == "fin");
                 if all_ok && has_fin {
-                    let (_, _, fin_free, _) = run_write(&calls, None);
+                    let (_, _, fin_free, _) = run_write(&calls, &srcs, None);
                     let (lk, lf) = (fin_k.as_deref().and_then(listing), fin_free.as_deref().and_then(listing));
                     if lk != lf { f.push(OracleFailure { what: format!("writer: every call succeeded under the fault but the archive reads back differently: {:?} vs {:?}", lk, lf) }); }
                 }
